@@ -8,6 +8,8 @@ import (
 type pendingMsg struct {
 	msgChan   chan Message
 	timestamp time.Time
+	// waiting is set while a call is blocked on msgChan.
+	waiting bool
 }
 
 type pendingItem struct {
@@ -29,15 +31,20 @@ func (p pendingQueue) Swap(i, j int) {
 	p[i], p[j] = p[j], p[i]
 }
 
+// pendingOldest returns up to num of the oldest entries which no call is
+// waiting on.
 func pendingOldest(pending map[string]pendingMsg, num int) pendingQueue {
-	if num > len(pending) {
-		num = len(pending)
-	}
 	queue := make(pendingQueue, 0, len(pending))
 	for key, p := range pending {
+		if p.waiting {
+			continue
+		}
 		queue = append(queue, pendingItem{
 			key, p.timestamp,
 		})
+	}
+	if num > len(queue) {
+		num = len(queue)
 	}
 	sort.Sort(queue)
 	return queue[:num]
